@@ -5,6 +5,8 @@ itself (x in box(leaf)  <=>  apply(x) == leaf), all on float32-representable inp
 trees cast their input to float32).  The same workloads also run against the ASan+UBSan build of
 _tree_digitize (flavour 'asan'): a sanitizer report with an mlinsights frame is a violation.
 """
+import warnings
+
 import numpy
 
 PROPERTY = "C12"
@@ -39,6 +41,7 @@ def cases(tier, seed):
         out.append({"gen": "tree", "id": "tree-%d" % k, "sub": seed * 100003 + k})
     for k in range(32 if tier == "quick" else 300):
         out.append({"gen": "tree", "id": "tree-nan-%d" % k, "sub": seed * 100003 + 9000 + k, "force": "nan-trained"})
+    out.append({"gen": "tree", "id": "tree-deep-chain", "sub": seed * 100003 + 9900, "force": "deep-chain"})
     for k in range(4):
         out.append({"gen": "tree", "id": "tree-asan-%d" % k, "sub": seed * 100003 + 7000 + k, "flavour": "asan"})
     for k in range(6 if tier == "quick" else 40):
@@ -257,6 +260,18 @@ def make_tree(rng, force=None):
     kind = ["reg", "clf", "extra", "constant", "bestfirst-reg", "bestfirst-clf", "nan-trained"][rng.randint(7)]
     kind = force or kind
     depth = int(rng.randint(1, 9))
+    if kind == "deep-chain":
+        # a valid fitted tree deeper than the interpreter's recursion limit: every split peels off one row
+        from sklearn.tree import DecisionTreeRegressor as _DTR
+        n = 1300
+        X = numpy.arange(n, dtype=numpy.float32).reshape(-1, 1).astype(numpy.float64)
+        y = 1.5 ** numpy.arange(n)
+        m = _DTR(random_state=0)
+        with warnings.catch_warnings():
+            warnings.simplefilter("ignore")
+            m.fit(X, y)
+        m._verif_y = y
+        return m, X, kind, int(m.get_depth())
     y = X[:, 0] * 2 + numpy.sin(X[:, -1]) + rng.randn(n) * 0.1
     if kind == "nan-trained":
         # missing values in the training set: scikit-learn sends them to one side and may later isolate them with
@@ -384,6 +399,23 @@ def check_tree(case, ctx, rng, m, X, kind, depth, suffix):
         ctx.hit("node_range.single_node" if len(leaves) == 1 else "node_range")
         if box.ndim != 2 or (box.size and box.shape[1] != 2) or box.shape[0] > d:
             ctx.violation(K + "tree_node_range/shape", "range has shape %r for %d features" % (box.shape, d), cfg=cfg)
+            break
+        # the caller writes into the array it was given (NaN sides replaced by the range of the data before drawing) and
+        # asks again: the answer is the box, not what the caller made of the previous answer
+        try:
+            raw = tree_node_range(m, leaf)
+            if isinstance(raw, numpy.ndarray) and raw.size and raw.flags.writeable:
+                keep_box = numpy.array(raw, dtype=float, copy=True)
+                raw[...] = -12345.0
+                again_box = numpy.asarray(tree_node_range(m, leaf), dtype=float)
+                ctx.hit("node_range.after_caller_wrote_into_the_result")
+                if again_box.shape != keep_box.shape or not numpy.array_equal(again_box, keep_box, equal_nan=True):
+                    ctx.violation(K + "tree_node_range/answer-follows-the-callers-edits" + S, "leaf %d: the array returned "
+                                  "by a first call was overwritten by the caller; a second call returns %r instead of "
+                                  "%r" % (leaf, again_box.tolist()[:2], keep_box.tolist()[:2]), cfg=cfg)
+                    break
+        except Exception as e:
+            ctx.violation(K + "tree_node_range/raised/%s/second-call" % type(e).__name__, str(e)[:120], cfg=cfg)
             break
         inside = in_box(box, Q)
         routed = app == leaf
